@@ -28,6 +28,8 @@
 (*   rxremoved t                   Abandon / Repop removing the receiver:   *)
 (*                                 t is dead and its ring is empty (C01:    *)
 (*                                 nothing is destroyed with a receiver)    *)
+(*   cycbegin                      CycleBegin: what is in a ring now must be *)
+(*                                 in this sweep's batch (queue-not-swept)  *)
 (*   process starts drops commits submits                                   *)
 (*                                 Process: the batch is, kind by kind and  *)
 (*                                 in order, exactly what was drained       *)
@@ -42,7 +44,7 @@ Put(f, x, v) == [y \in DOMAIN f \cup {x} |-> IF y = x THEN v ELSE f[y]]
 EmptyFn == [x \in {} |-> None]
 
 ChanInit(k) == [K |-> k, ring |-> EmptyFn, pend |-> EmptyFn, batch |-> <<>>, dead |-> {}, exiting |-> {}, removed |-> {},
-                n |-> 0, steered |-> FALSE, events |-> 0, drift |-> <<>>]
+                n |-> 0, nb |-> 0, steered |-> FALSE, events |-> 0, drift |-> <<>>]
 
 Drift(c, w, d, p) == [c EXCEPT !.drift = Append(@, [w |-> w, d |-> d, p |-> p])]
 Forced(k) == k \in {"start", "commit", "drop"}
@@ -61,7 +63,7 @@ ChanStep(c0, e) ==
              c2 == IF Len(r) >= c.K THEN Drift(c1, "push-into-full-ring", <<t, e.kind>>, "") ELSE c1 IN
          IF e.kind \in {"replay", "exit"}
          THEN IF p = <<>> THEN Drift(c2, "replay-of-nothing", <<t, e.kind>>, "")
-              ELSE [c2 EXCEPT !.ring = Put(@, t, Append(r, Head(p))), !.pend = Put(@, t, Tail(p))]
+              ELSE [c2 EXCEPT !.ring = Put(@, t, Append(r, [Head(p) EXCEPT !.n = c.n])), !.pend = Put(@, t, Tail(p))]
          ELSE LET cmd == [t |-> t, n |-> c.n, k |-> e.kind, cids |-> e.cids]
                   c3 == IF p # <<>> THEN Drift(c2, "value-overtook-parked-commands", <<t, e.kind, Len(p)>>, IF Forced(e.kind) THEN "C09" ELSE "") ELSE c2 IN
               [c3 EXCEPT !.ring = Put(@, t, Append(r, cmd))]
@@ -93,14 +95,20 @@ ChanStep(c0, e) ==
              c1 == IF t \notin c.dead \cup c.exiting THEN Drift(c, "receiver-of-a-live-thread-removed", t, "") ELSE c
              c2 == IF r # <<>> THEN Drift(c1, "commands-destroyed-with-their-receiver", <<t, [i \in DOMAIN r |-> r[i].k]>>, "C01") ELSE c1 IN
          [c2 EXCEPT !.removed = @ \cup {t}, !.ring = Put(@, t, <<>>)]
+    \* CycleBegin: commands numbered below nb were in a ring when this sweep began
+    [] e.ev = "cycbegin" -> [c EXCEPT !.nb = c.n]
     [] e.ev = "process" ->
          IF ~c.steered THEN [c EXCEPT !.batch = <<>>]
          ELSE LET b == c.batch
+                  \* Channel.tla: a sweep pops every registered ring until it is empty - whatever was queued when the
+                  \* sweep began is in its batch
+                  left == {t \in DOMAIN c.ring : t \notin c.removed /\ \E i \in DOMAIN c.ring[t] : c.ring[t][i].n < c.nb}
+                  c0a == IF left # {} THEN Drift(c, "queue-not-swept", left, "") ELSE c
                   ok == /\ Cids1(OfKind(b, "start")) = e.starts
                         /\ Cids1(OfKind(b, "drop")) = e.drops
                         /\ Cids1(OfKind(b, "commit")) = e.commits
                         /\ CidsAll(OfKind(b, "submit")) = e.submits
-                  c1 == IF ok THEN c ELSE Drift(c, "batch-is-not-what-was-drained",
+                  c1 == IF ok THEN c0a ELSE Drift(c0a, "batch-is-not-what-was-drained",
                                                 <<"model", [i \in DOMAIN b |-> <<b[i].t, b[i].k, b[i].cids>>], "code", <<e.starts, e.drops, e.commits, e.submits>>>>, "") IN
               [c1 EXCEPT !.batch = <<>>]
     [] OTHER -> c
